@@ -16,8 +16,7 @@ package socket
 //@   nopanic
 //@   modifies nothing
 //@   requires [length_fits_31_bits] 0 <= length && length < 2147483648
-//@   let idx = wrapu32(index)
-//@   ensures [index_big_endian] header[8] == byteof(idx, 3) && header[9] == byteof(idx, 2) && header[10] == byteof(idx, 1) && header[11] == byteof(idx, 0)
+//@   ensures [index_big_endian] header[8] == byteof(index, 3) && header[9] == byteof(index, 2) && header[10] == byteof(index, 1) && header[11] == byteof(index, 0)
 //@   ensures [length_big_endian_with_marker] header[4] == byteof(length, 3) + 128 && header[5] == byteof(length, 2) &&
 //@       header[6] == byteof(length, 1) && header[7] == byteof(length, 0)
 //@   ensures [checksum_is_32_bit] 0 <= crc8(header[4], header[5], header[6], header[7], header[8], header[9], header[10], header[11]) &&
@@ -66,8 +65,8 @@ package socket
 //@ func (*conn).send
 //@   prop C12 C09
 //@   nopanic
-//@   requires c != nil && len(request.Body) < 2147483648 && 0 <= request.Index && request.Index < 2147483648
-//@   requires ghost.wpos[ival(c.Conn)] >= 0
+//@   requires c != nil && ghost.wpos[ival(c.Conn)] >= 0
+//@   requires [body_fits_the_header] len(request.Body) < 2147483648
 //@   modifies ghost.wpos[ival(c.Conn)], ghost.wstream[ival(c.Conn)]
 //@   let w = ival(c.Conn)
 //@   let p0 = ghost.wpos[ival(c.Conn)]
@@ -84,6 +83,7 @@ package socket
 //@            ghost.wstream[w][p0 + 8], ghost.wstream[w][p0 + 9], ghost.wstream[w][p0 + 10], ghost.wstream[w][p0 + 11])
 //@   ensures [body_follows_unchanged] err == nil ==> forall(i, 0, len(request.Body), ghost.wstream[w][p0 + 12 + i] == request.Body[i])
 //@   ensures [earlier_bytes_untouched] forall(p, 0, p0, ghost.wstream[w][p] == old(ghost.wstream[ival(c.Conn)][p]))
+//@   ensures [position_never_goes_back] ghost.wpos[w] >= p0
 
 // ---- server side ------------------------------------------------------------
 //
@@ -167,9 +167,198 @@ package socket
 //@   loop 1 ensures [frame_length] ghost.wpos[ival(conn)] == old(ghost.wpos[ival(conn)]) + 12 + len(body)
 //@   loop 1 ensures [header_carries_body_length] hdr_len(ghost.wstream[ival(conn)], old(ghost.wpos[ival(conn)])) == len(body) &&
 //@       ghost.wstream[ival(conn)][old(ghost.wpos[ival(conn)]) + 4] >= 128
-//@   loop 1 ensures [header_carries_the_response_index] hdr_idx(ghost.wstream[ival(conn)], old(ghost.wpos[ival(conn)])) == wrapu32(response.Index) % 2147483648
-//@   loop 1 ensures [no_error_bit_on_a_successful_response] 0 <= response.Index && response.Index < 2147483648 ==>
+//@   loop 1 ensures [header_carries_the_response_index] 0 <= response.Index && response.Index < 2147483648 ==>
+//@       hdr_idx(ghost.wstream[ival(conn)], old(ghost.wpos[ival(conn)])) == response.Index &&
 //@       hdr_noerr(ghost.wstream[ival(conn)], old(ghost.wpos[ival(conn)]))
 //@   loop 1 ensures [header_checksum_valid] hdr_crcok(ghost.wstream[ival(conn)], old(ghost.wpos[ival(conn)]))
 //@   loop 1 ensures [body_is_the_response_body] same(body, response.Body) &&
 //@       forall(i, 0, len(body), ghost.wstream[ival(conn)][old(ghost.wpos[ival(conn)]) + 12 + i] == body[i])
+
+// ---- client side: the pending-call table (C09, C10) ---------------------------
+//
+// conn.results maps a request index to the (capacity-1) channel of the caller
+// waiting for that response. It is guarded by conn.lock: every access carries a
+// lock-held obligation, so the table operations below are atomic steps for
+// every interleaving. A response is handed to the caller that registered its
+// index after the entry has been removed under the lock, hence at most once;
+// an index that is not in the table (stray or duplicate) changes nothing.
+
+//@ guarded conn.results by lock
+
+// every request handed to the sender goroutine fits the frame header (checked where Transport
+// enqueues it, relied upon where Send dequeues it)
+//@ chaninv conn.requests len(v.Body) < 2147483648
+
+//@ func (*conn).store
+//@   prop C09 C10
+//@   nopanic
+//@   requires c != nil && c.results != nil
+//@   modifies c.results[*], ghost.held[addr(c.lock)]
+//@   ensures [registered] haskey(c.results, index) && c.results[index] == resultChan
+//@   ensures [lock_released] ghost.held[addr(c.lock)] == 0
+
+//@ func (*conn).delete
+//@   prop C09 C10
+//@   nopanic
+//@   requires c != nil
+//@   modifies c.results[*], ghost.held[addr(c.lock)]
+//@   ensures [unregistered] !haskey(c.results, index)
+//@   ensures [lock_released] ghost.held[addr(c.lock)] == 0
+
+//@ func (*conn).loadAndDelete
+//@   prop C09 C10
+//@   nopanic
+//@   requires c != nil
+//@   modifies c.results[*], ghost.held[addr(c.lock)]
+//@   ensures [found_iff_registered] loaded == old(haskey(c.results, index))
+//@   ensures [returns_the_registered_channel] loaded ==> resultChan == old(c.results[index])
+//@   ensures [entry_removed] !haskey(c.results, index)
+//@   ensures [lock_released] ghost.held[addr(c.lock)] == 0
+
+// conn.receive: reads exactly one frame; the body handed to the waiting caller is exactly the
+// frame body, under the index the header carries; a frame nobody waits for is dropped.
+//@ func (*conn).receive
+//@   prop C12 C09
+//@   nopanic
+//@   requires c != nil && ghost.rpos[ival(c.Conn)] >= 0
+//@   modifies ghost.rpos[ival(c.Conn)], ghost.bufsrc[*], ghost.bufpos[*], ghost.bufn[*], c.results[*], ghost.held[addr(c.lock)],
+//@       ghost.chansent[*], ghost.chanlen[*]
+//@   let r = ival(c.Conn)
+//@   let p0 = ghost.rpos[ival(c.Conn)]
+//@   ensures [position_never_goes_back] ghost.rpos[r] >= p0
+//@   ensures [bad_checksum_is_an_error] err == nil ==> hdr_crcok(ghost.rstream[r], p0)
+//@   ensures [consumes_exactly_one_frame] err == nil ==> ghost.rpos[r] == p0 + 12 + hdr_len(ghost.rstream[r], p0)
+//@   ensures [error_frames_become_errors] err == nil ==> hdr_noerr(ghost.rstream[r], p0)
+//@   ensures [delivered_to_the_registered_caller_only] err == nil && loaded ==> resultChan == old(c.results[index]) &&
+//@       ghost.chansent[resultChan] == old(ghost.chansent[resultChan]) + 1
+//@   ensures [index_is_the_header_index] err == nil ==> index == hdr_idx(ghost.rstream[r], p0)
+//@   ensures [delivers_exactly_the_frame_body] err == nil && loaded ==> lastsent(resultChan).Index == index && lastsent(resultChan).Error == nil &&
+//@       len(lastsent(resultChan).Body) == hdr_len(ghost.rstream[r], p0) &&
+//@       forall(i, 0, len(lastsent(resultChan).Body), lastsent(resultChan).Body[i] == ghost.rstream[r][p0 + 12 + i])
+//@   ensures [stray_response_changes_nothing] err == nil && !loaded ==> forall(ch, 0, 0, true) && ghost.chansent[resultChan] == old(ghost.chansent[resultChan])
+//@   ensures [entry_consumed] err == nil ==> !haskey(c.results, index)
+
+// conn.Transport: registers a fresh index, and on every return path that gives up (context done)
+// removes its own entry again: no pending entry is left behind.
+//@ func (*conn).Transport
+//@   prop C09 C10
+//@   nopanic
+//@   requires c != nil && c.results != nil
+//@   modifies c.counter, c.results[*], ghost.held[addr(c.lock)], ghost.chansent[*], ghost.chanlen[*], ghost.chanrecv[*]
+//@   ensures [index_is_31_bit] 0 <= index && index < 2147483648
+//@   ensures [gave_up_leaves_no_entry] err != nil && ghost.chanrecv[resultChan] == 0 ==> !haskey(c.results, index)
+
+// ---- fault containment (C11): goroutine roots ---------------------------------
+//
+// Every goroutine this package starts runs a function that cannot let a panic
+// escape: either it has a verified `nopanic` contract (all panic sources in its
+// body and callees are discharged or recovered by a deferred function that
+// calls recover() itself), or the rule below finds such a frame structurally.
+// User-supplied callbacks (OnAccept, OnClose, OnError, OnConnect) are assumed
+// not to panic (function-type contract, listed in the evidence).
+
+//@ type Callback()
+//@   nopanic
+//@   havoc
+//@ type ConnCallback(c)
+//@   nopanic
+//@   havoc
+//@ type ConnMapCallback(c) (r)
+//@   nopanic
+//@   havoc
+//@   ensures r != nil ==> ghost.rpos[ival(r)] >= 0 && ghost.wpos[ival(r)] >= 0
+//@ type ErrorCallback(c, err)
+//@   nopanic
+//@   havoc
+//@ fieldfunc Handler.OnAccept ConnMapCallback
+//@ fieldfunc Handler.OnClose ConnCallback
+//@ fieldfunc Handler.OnError ErrorCallback
+//@ fieldfunc conn.onClose ConnCallback
+//@ fieldfunc Transport.OnConnect ConnMapCallback
+//@ fieldfunc Transport.OnClose ConnCallback
+
+//@ rule goroutine_roots prop=C11
+
+// Thin contracts for the goroutine bodies and the cleanup path: no panic escapes; they may
+// change any ghost state (callers need nothing else from them).
+//@ func nextTempDelay
+//@   prop C11
+//@   nopanic
+//@   havoc
+//@   modifies ghost.*
+//@   flag fn.onError=github.com/hprose/hprose-golang/v3/rpc/socket::ErrorCallback
+
+//@ func (*Handler).bind
+//@   prop C11
+//@   nopanic
+//@   havoc
+//@   modifies ghost.*
+//@   requires h != nil && h.Service != nil
+//@   stable h.Service
+
+//@ func (*Handler).Serve
+//@   prop C11
+//@   nopanic
+//@   havoc
+//@   modifies ghost.*
+//@   requires h != nil && h.Service != nil && ghost.rpos[ival(conn)] >= 0 && ghost.wpos[ival(conn)] >= 0
+//@   stable h.Service
+
+//@ func (*conn).rangeAndClean
+//@   prop C11 C10 C09
+//@   nopanic
+//@   havoc
+//@   modifies ghost.*
+//@   flag fn.f=github.com/hprose/hprose-golang/v3/rpc/socket::CleanFunc
+//@   requires c != nil
+//@   loop 1 invariant ghost.held[addr(c.lock)] == 1
+//@   ensures [lock_released] ghost.held[addr(c.lock)] == 0
+//@   ensures [no_pending_entry_left] len(c.results) == 0
+
+//@ type CleanFunc(index, resultChan)
+//@   nopanic
+//@   havoc
+//@   modifies ghost.*
+
+//@ func (*conn).Close
+//@   prop C11 C10
+//@   nopanic
+//@   havoc
+//@   modifies ghost.*
+//@   requires c != nil
+
+//@ func (*conn).Exit
+//@   prop C11 C10
+//@   nopanic
+//@   havoc
+//@   modifies ghost.*
+//@   flag fn.onExit=github.com/hprose/hprose-golang/v3/rpc/socket::Callback
+//@   requires c != nil
+
+// the cleanup a dying connection runs: removes itself from the pool exactly when it is still
+// the registered connection for its key, and cancels its own goroutines
+//@ func (*Transport).getConn$1
+//@   prop C11 C10
+//@   nopanic
+//@   havoc
+//@   modifies ghost.held[addr(trans.lock)]
+//@   ensures [lock_released] ghost.held[addr(trans.lock)] == 0
+//@   ensures [dead_connection_leaves_the_pool] !(haskey(trans.conns, key) && trans.conns[key] == conn)
+
+//@ func (*conn).Send
+//@   prop C11 C10
+//@   nopanic
+//@   havoc
+//@   modifies ghost.*
+//@   flag fn.onExit=github.com/hprose/hprose-golang/v3/rpc/socket::Callback
+//@   requires c != nil && ghost.wpos[ival(c.Conn)] >= 0
+//@   loop 1 invariant ghost.wpos[ival(c.Conn)] >= 0
+
+//@ func (*conn).Receive
+//@   prop C11 C10
+//@   nopanic
+//@   havoc
+//@   modifies ghost.*
+//@   flag fn.onExit=github.com/hprose/hprose-golang/v3/rpc/socket::Callback
+//@   requires c != nil && ghost.rpos[ival(c.Conn)] >= 0
+//@   loop 1 invariant ghost.rpos[ival(c.Conn)] >= 0
